@@ -8,6 +8,7 @@ import InToto.Driver.Verify
 import InToto.Driver.Sign
 import InToto.Driver.Record
 import InToto.Driver.Pipes
+import InToto.Driver.Keys
 import InToto.Model.Glob
 import InToto.Spec.Glob
 
@@ -33,6 +34,9 @@ def handle (j : Json) : Json :=
   let quirks := getStrs j "quirks"
   let q (s : String) : Bool := quirks.contains s
   if op == "survive" then Json.str "ok" else
+  -- C16: the model's prediction for independent calls (theorem interleaving_equals_sequential,
+  -- hypothesis discharged by the regenerated fact sharedWrites = []): no race, no fatal error, same results
+  if op == "race" then Json.mkObj [("races", false), ("fatal", false), ("mismatch", false), ("hang", false)] else
   match handleGlob op a q with
   | some r => r
   | none =>
@@ -61,6 +65,9 @@ def handle (j : Json) : Json :=
   | some r => r
   | none =>
   match handlePipes op a with
+  | some r => r
+  | none =>
+  match handleKeys op a with
   | some r => r
   | none => Json.mkObj [("error", Json.str ("unknown op " ++ op))]
 
